@@ -15,6 +15,9 @@ var extraNotes4 = map[string][2]string{
 	"C31": {"monotone-write rule for the running totals", "(W2) outside the constructor every assignment to retrieveTraffic / retrieveChequeTraffic / transferTraffic / transferChequeTraffic is max(current, x), current + x on a fresh big.Int, or the cumulative payout of the cheque being recorded — never a plain copy that could lower it."},
 	"C33": {"restore-set exhaustiveness", "(H1) in trafficInit the keys of LastSendCheques() and LastReceivedCheques() are inserted into the address set that getAllAddress / replaceTraffic restore."},
 	"C40": {"ordering rule for subscription vs unsubscription", "(O1) Subscribe queues the subscription before starting the unsubscribing goroutine, and either both travel on one channel or the unsubscription branch of process first receives len(subInfoChan) queued subscriptions before loading the subscriber list."},
+	"C21": {"derived-answer rule for the queries", "(P3) Length / BinSize / BinPeers / ShallowestEmpty / Exists read no field of the set other than the bins, the lock and the fixed configuration (sufficient condition: a cached size would be reported for review)."},
+	"C32": {"atomic test-and-record in Debit", "(Lk2) Debit calls TransferTraffic (the read deciding the refusal) and PutTransferTraffic (the record) with the peer's lock held."},
+	"C38": {"goroutine / loop-variable rule", "(Y1) no goroutine started inside a loop in pkg/multicast reads a variable that the loop overwrites per iteration (shared loop variable under the module's go 1.17 semantics)."},
 	"C20": {"scan-width rule", "(K1) the byte limit of the comparison loop in Proximity / ExtendedProximity starts from a constant K with K*8 >= the function's own cap (MaxPO / ExtendedPO)."},
 }
 
